@@ -1921,8 +1921,8 @@ static void run_inplace(ipctx *c, const ex *xh, const ipstep *s, unsigned hk,
                  kind_name[E.kind], m, what);
         const int first_call = c->ncall == 0;
         c->ncall++;
-        const int observe = !getenv("VF_C15_NOCOPY") && ((c->observe_first && first_call) ||
-                            (c->observe_last && is_last_step && final)); /*TMP*/
+        const int observe = (c->observe_first && first_call) ||
+                            (c->observe_last && is_last_step && final);
         obs *P = (obs *)calloc(1, sizeof(obs));
         if (!P) {
             abort();
